@@ -26,7 +26,12 @@ META = {
              "behaviour) pair for every request of the operation. "
              "non-trivial = sharded dataset with >= 2 minishards, or a fault "
              "on a request other than the first; distinct by the whole "
-             "case."),
+             "case."
+             ' Also: directory names that need percent-encoding; multiscal'
+             'e: 2-3 scales with their own size / chunk size / sharding pa'
+             'rameters; faults_all: every request x every fault kind; big_'
+             'chunk: 4-9 MiB chunks with short / over-long / error replies'
+             '.'),
     "trusted_base": ["vlib/httpd.py implements docs/serving-data.rst",
                      "requests/urllib3", "vlib/refs/sharded_spec.py writer"],
     "assumptions": ["loopback TCP works in the sandbox", "server faults are "
